@@ -263,6 +263,8 @@ func (w *worker) runSession() {
 		w.modeLongPairs()
 	case "solo":
 		w.modeSolo()
+	case "soak":
+		w.modeSoak()
 	case "rand":
 		for i := 0; i < s.Runs && !w.stop; i++ {
 			seed := simrt.Mix(s.Seed, uint64(s.Worker), uint64(i))
@@ -766,6 +768,67 @@ func (w *worker) modeSolo() {
 		pol.PoolMode, pol.TimerP = "lifo", 0.005
 		calls := []simrt.Call{{API: api, Idx: in, Input: w.c.In[in]}}
 		spec := &simrt.RunSpec{Seed: simrt.Mix(w.ses.Seed, uint64(k), 11), Tasks: [][]simrt.Call{calls}, Policy: pol, Est: w.c.Steps[api][in] + 64}
+		w.execRun(spec, nil, false)
+	}
+}
+
+// modeSoak: one long-lived process, one caller, Runs calls in total: first
+// one probe asked 70 000 times (16-bit counters wrap), then every short corpus
+// input in a seeded order on alternating APIs with a few probes re-asked all
+// the time. Thresholds on accumulated quantities (calls, bytes, distinct
+// keys, distinct fingerprints) are only reached by processes that live long.
+func (w *worker) modeSoak() {
+	_, probes := HistLists(w.c)
+	if len(probes) == 0 {
+		return
+	}
+	r := simrt.NewRNG(simrt.Mix(w.ses.Seed, uint64(w.ses.Worker), 0x50a4))
+	var short []int32
+	for i, in := range w.c.In {
+		if len(in) <= 200 && w.c.Flags[i]&common.FLong == 0 {
+			short = append(short, int32(i))
+		}
+	}
+	for i := len(short) - 1; i > 0; i-- {
+		j := r.Intn(i + 1)
+		short[i], short[j] = short[j], short[i]
+	}
+	// the hot probe: a POSITIVE of the hot API (a degraded or frozen path most
+	// likely answers "no"), a different one for every soak process
+	hotAPI := uint8(w.ses.Worker & 1)
+	var pos []int32
+	for _, p := range probes {
+		if ref := w.c.Ref[hotAPI][p]; len(ref) > 0 && ref[0] == 'T' {
+			pos = append(pos, p)
+		}
+	}
+	if len(pos) == 0 {
+		pos = probes
+	}
+	hot := pos[(w.ses.Worker/2)%len(pos)]
+	const perRun = 5000
+	done := 0
+	cur := 0
+	for done < w.ses.Runs && !w.stop {
+		var calls []simrt.Call
+		var est int64
+		for k := 0; k < perRun && done < w.ses.Runs; k++ {
+			var idx int32
+			api := uint8((done + w.ses.Worker) & 1)
+			switch {
+			case done < 70000:
+				idx, api = hot, hotAPI
+			case k%16 == 0:
+				idx = probes[(done/16)%len(probes)]
+			default:
+				idx = short[cur%len(short)]
+				cur++
+			}
+			calls = append(calls, simrt.Call{API: api, Idx: idx, Input: w.c.In[idx]})
+			est += w.c.Steps[api][idx] + 1
+			done++
+		}
+		spec := &simrt.RunSpec{Seed: uint64(done), Tasks: [][]simrt.Call{calls}, Policy: simrt.Policy{Kind: "seq", PoolMode: "lifo"}, Est: est + 64}
 		w.execRun(spec, nil, false)
 	}
 }
